@@ -24,6 +24,8 @@ use vh::util::*;
 use vh::val::Val;
 
 thread_local! {
+    /// parse results of config texts already shown to the real crate: (fmt, text) -> (tag (rate)) | ()
+    static PARSED: RefCell<HashMap<(u128, Vec<u8>), Val>> = RefCell::new(HashMap::new());
     /// deliveries (tag, idx) seen by the current thread since the last drain
     static DELIV: RefCell<Vec<(u64, usize)>> = RefCell::new(Vec::new());
 }
@@ -589,23 +591,30 @@ fn run_reload(c: &[Val]) -> Val {
     let texts = c[2].l();
     let init = c[3].l();
     let dir = tempfile::tempdir().unwrap();
-    // the parse table as the real crate sees it
+    // the parse table as the real crate sees it (memoised per process: texts recur across cases)
     let mut table = vec![];
     for (i, t) in texts.iter().enumerate() {
+        let key = (fmt, t.l()[0].s().to_vec());
+        if let Some(v) = PARSED.with(|m| m.borrow().get(&key).cloned()) {
+            table.push(v);
+            continue;
+        }
         let p = dir.path().join(format!("t{}.{}", i, ext(fmt)));
         std::fs::write(&p, t.l()[0].s()).unwrap();
         let lg = empty_logger();
-        match log4rs::config::VerifReloader::new(&p, deserializers(), lg.verif_handle()) {
+        let v = match log4rs::config::VerifReloader::new(&p, deserializers(), lg.verif_handle()) {
             Ok((_, cfg, rate)) => {
                 lg.verif_handle().set_config(cfg);
                 let rate = match rate {
                     Some(d) => Val::L(vec![Val::N(d.as_millis())]),
                     None => Val::L(vec![]),
                 };
-                table.push(Val::L(vec![Val::N(active_tag(&lg)), rate]));
+                Val::L(vec![Val::N(active_tag(&lg)), rate])
             }
-            Err(_) => table.push(Val::L(vec![])),
-        }
+            Err(_) => Val::L(vec![]),
+        };
+        PARSED.with(|m| m.borrow_mut().insert(key, v.clone()));
+        table.push(v);
     }
     let path = dir.path().join(format!("c.{}", ext(fmt)));
     apply_file(&path, texts, &[Val::N(2), init[0].clone(), init[1].clone()]);
